@@ -238,8 +238,19 @@ def generate(seed, tier):
                 if rng.random() < 0.5:
                     # same variable again (served from the cache), or the other order
                     ops.append("%s %s %s" % (rng.choice([dd, "d1", "d2"]), o, var))
+            elif u < 0.98:
+                # deep copy: the copy and the original then evolve independently
+                src = rng.choice(["r", "l", "g"])
+                dst = src + "2"
+                ops.append("clone %s %s" % (src, dst))
+                nm = "e%d_%d" % (rng.randrange(T), rng.randrange(n))
+                v = max(rand_emission(rng, kind), 1e-3) if kind in ("pos", "stat") else rand_emission(rng, kind)
+                ops += ["setp %s %s %s" % (dst, nm, h(v)), "brk %s %s" % (src, " ".join(map(str, rand_breaks(rng, T)))),
+                        "ll %s" % src, "ll %s" % dst]
+                if src != "l":
+                    ops += ["post %s" % dst, "post %s" % src]
             else:
-                ops.append("ll %s" % rng.choice(objs))
+                ops.append("%s %s" % (rng.choice(["ll", "val"]), rng.choice(objs)))
         ops.append("agree r l g")
         cases.append(["case hist%d n=%d T=%d %s" % (i, n, T, kind)] + ops)
     # ---- bad
